@@ -1042,6 +1042,7 @@ package connect
 //@   ensures res != nil ==> asErr(res) == res && res.code != 0                                          // label: never-the-zero-code
 //@   ensures old(hget(trailer, "Grpc-Status")) == "" ==> res != nil && res.code == 13 && Is(res, errTrailersWithoutGRPCStatus)   // label: missing-status-is-internal
 //@   ensures isNum10(old(hget(trailer, "Grpc-Status"))) && val10(old(hget(trailer, "Grpc-Status"))) == 0 ==> res == nil   // label: every-numeric-zero-is-ok
+//@   ensures res == nil ==> old(hget(trailer, "Grpc-Status")) != "" && isNum10(old(hget(trailer, "Grpc-Status"))) && val10(old(hget(trailer, "Grpc-Status"))) == 0   // label: ok-only-with-a-zero-grpc-status   // tags: C04
 //@   loop rangeindex:
 //@     invariant 0 - 1 <= rangeindex && rangeindex < |status.Details|
 
@@ -1148,3 +1149,43 @@ package connect
 //@   assigns everything
 //@   assert@call(newDuplexHTTPCall#1): !callresb("context.Context.Deadline", 1, 1) ==> hdom(header, "Grpc-Timeout") == old(hdom(header, "Grpc-Timeout")) && hraw(header, "Grpc-Timeout") == old(hraw(header, "Grpc-Timeout"))   // label: no-deadline-no-timeout-header
 //@   assert@call(newDuplexHTTPCall#1): callresb("context.Context.Deadline", 1, 1) && callres("time.Until", 1) > 0 ==> hdom(header, "Grpc-Timeout") && hraw(header, "Grpc-Timeout") == [callres("grpcEncodeTimeout", 1, 0)] && gramT(callres("grpcEncodeTimeout", 1, 0)) && durT(callres("grpcEncodeTimeout", 1, 0)) <= callres("time.Until", 1)   // label: timeout-is-the-encoded-remaining-time
+
+// ---------------------------------------------------------------------------
+// protocol_grpc.go: client side (C04: grpc-status is the terminator)
+// ---------------------------------------------------------------------------
+
+//@ trusted func bufio.NewReader(rd) res
+//@   ensures fresh(res)
+//@ trusted func textproto.NewReader(r) res
+//@   ensures fresh(res)
+//@ trusted func (*textproto.Reader).ReadMIMEHeader(r) (h, err)
+//@   doc: "ReadMIMEHeader reads a MIME-style header from r; the returned map has canonical keys."
+
+//@ func (*grpcUnmarshaler).WebTrailer(u) res
+//@   tags C04
+//@   requires u != nil
+//@   ensures res == u.webTrailer
+
+//@ func (*grpcUnmarshaler).Unmarshal(u, message) res
+//@   tags C04, C06
+//@   requires u != nil && u.envelopeReader.reader != nil && !pooled(u.envelopeReader.reader) && termerr(u.envelopeReader.reader) != errSpecialEnvelope && u.envelopeReader.bufferPool != nil && u.envelopeReader.codec != nil
+//@   assigns everything
+//@   ensures res == nil ==> old(completeFrame(u.envelopeReader, rest(u.envelopeReader.reader)) && (rest(u.envelopeReader.reader)[0] == 0 || rest(u.envelopeReader.reader)[0] == 1))   // label: a-message-only-from-a-complete-data-frame
+//@   ensures res == errSpecialEnvelope ==> old(u.web && completeFrame(u.envelopeReader, rest(u.envelopeReader.reader)) && bit(rest(u.envelopeReader.reader)[0], 128))   // label: web-trailers-only-from-a-frame-flagged-0x80
+//@   ensures res != nil && Is(res, io.EOF) && res != errSpecialEnvelope && termerr(u.envelopeReader.reader) == io.EOF && !called("(*textproto.Reader).ReadMIMEHeader", 1) ==> |old(rest(u.envelopeReader.reader))| == 0   // label: otherwise-eof-only-at-a-clean-end
+//@   ensures res != nil ==> asErr(res) == res                                                           // label: errors-are-coded
+
+//@ constfield grpcClientConn.duplexCall, grpcClientConn.responseHeader, grpcClientConn.responseTrailer, grpcClientConn.bufferPool, grpcClientConn.protobuf, grpcClientConn.readTrailers, grpcClientConn.compressionPools
+//@ trusted func field:grpcClientConn.readTrailers(u, call) res
+//@   assigns everything
+//@   ensures res != nil
+//@   doc: "the two closures installed by grpcClient.NewConn (HTTP trailers after draining the body / the gRPC-Web trailer frame); not yet under contract"
+
+//@ func (*grpcClientConn).Receive(cc, msg) err
+//@   tags C04, C06
+//@   requires cc != nil && cc.duplexCall != nil && cc.duplexCall.requestBodyReader != nil && cc.responseTrailer != nil && cc.responseHeader != nil && cc.bufferPool != nil && cc.protobuf != nil && cc.readTrailers != nil
+//@   requires cc.unmarshaler.envelopeReader.reader != nil && !pooled(cc.unmarshaler.envelopeReader.reader) && termerr(cc.unmarshaler.envelopeReader.reader) != errSpecialEnvelope && cc.unmarshaler.envelopeReader.bufferPool != nil && cc.unmarshaler.envelopeReader.codec != nil
+//@   assigns everything
+//@   ensures callres("(*grpcUnmarshaler).Unmarshal", 1) == nil ==> err == nil                          // label: a-decoded-message-is-delivered
+//@   ensures err != nil && Is(err, io.EOF) ==> (called("grpcErrorFromTrailer", 1) && (callres("grpcErrorFromTrailer", 1) == nil || err == callres("grpcErrorFromTrailer", 1))) || callres("(http.Header).Get", 1) != ""   // label: clean-end-only-with-grpc-status-in-trailers-or-headers
+//@   ensures err != nil ==> coded(err)                                                                  // label: errors-are-coded
